@@ -583,19 +583,32 @@ func (g *vcgen) havocAll() {
 // havocEvent forgets the ghost record of one event across a call that may emit it
 func (g *vcgen) havocEvent(ev string) {
 	g.eventVars(ev)
+	cntBefore := g.get(g.st, "G.cnt."+ev)
 	g.havocNamed("G.first." + ev) // uses the counter and the clock as they are before the call
 	g.havocNamed("G.cnt." + ev)
 	g.havocNamed("G.last." + ev)
 	g.havocNamed("G.now")
 	// time stamps never run ahead of the ghost clock
 	g.assume(fmt.Sprintf("(and (<= %s %s) (<= %s %s))", g.get(g.st, "G.last."+ev), g.get(g.st, "G.now"), g.get(g.st, "G.first."+ev), g.get(g.st, "G.now")))
-	if _, ok := g.varSort["G.ret."+ev]; ok {
-		g.havocNamed("G.ret." + ev)
+	// the recorded arguments / result of the last occurrence only change if there was an occurrence
+	same := fmt.Sprintf("(= %s %s)", g.get(g.st, "G.cnt."+ev), cntBefore)
+	keep := func(n string) {
+		old := g.get(g.st, n)
+		nv := g.havocVar(n)
+		g.st.m[n] = g.define(n, g.varSort[n], fmt.Sprintf("(ite %s %s %s)", same, old, nv))
 	}
+	if _, ok := g.varSort["G.ret."+ev]; ok {
+		keep("G.ret." + ev)
+	}
+	var argNames []string
 	for n := range g.varSort {
 		if strings.HasPrefix(n, "G.arg."+ev+".") {
-			g.havocNamed(n)
+			argNames = append(argNames, n)
 		}
+	}
+	sort.Strings(argNames)
+	for _, n := range argNames {
+		keep(n)
 	}
 	g.havocNamed("G.now")
 }
@@ -673,8 +686,8 @@ func (g *vcgen) havocEffectsOf(eff *Effects, who string) {
 	if g.frameActive() {
 		var bad []string
 		for n := range eff.Vars {
-			if n == "G.alloc" || n == "G.now" || strings.HasPrefix(n, "G.first.") || strings.HasPrefix(n, "G.last.") || strings.HasPrefix(n, "G.ret.") {
-				continue
+			if n == "G.alloc" || n == "G.now" || strings.HasPrefix(n, "G.first.") || strings.HasPrefix(n, "G.last.") || strings.HasPrefix(n, "G.ret.") || strings.HasPrefix(n, "G.cnt.") || strings.HasPrefix(n, "G.arg.") || strings.HasPrefix(n, "G.fret.") {
+				continue // ghost events are a record of what happened, never part of a frame
 			}
 			if !g.frameAllowsVar(n) {
 				bad = append(bad, n)
@@ -1196,6 +1209,10 @@ func (g *vcgen) applyContract(fc *FuncContract, fn *ssa.Function, sig *types.Sig
 	// frame: what the callee may modify must be allowed by the caller's own modifies clause
 	endCall := g.beginCall()
 	defer endCall()
+	if fn == nil {
+		g.eng.pkgHint = fc.Pkg
+		defer func() { g.eng.pkgHint = "" }()
+	}
 	if fc.HasModifies {
 		g.stateVar("G.alloc", "Int")
 		g.havocNamed("G.alloc")
@@ -1558,7 +1575,43 @@ func (g *vcgen) invoke(v ssa.Value, c *ssa.CallCommon, args []string) []string {
 		sig := c.Signature()
 		full := append([]string{recv}, args...)
 		msig := types.NewSignatureType(types.NewVar(token.NoPos, nil, "recv", itype), nil, nil, sig.Params(), sig.Results(), sig.Variadic())
-		return g.applyContract(fc, nil, msig, full, nil, ifaceMethodKey(itype, mname))
+		res := g.applyContract(fc, nil, msig, full, nil, ifaceMethodKey(itype, mname))
+		// the dynamic type may be a module type implementing the external interface: its own fields are the concrete
+		// side of the interface's abstract state and may change with it (no separate frame obligation)
+		if iface, ok := itype.Underlying().(*types.Interface); ok && !closedWorld(itype) {
+			for _, t := range g.eng.Implementers(iface, iname) {
+				if m := g.eng.MethodOf(t, mname, c.Method.Pkg()); m != nil && m.Blocks != nil && g.eng.InModule(m) {
+					eff := g.eng.FuncEffects(m)
+					var names []string
+					for n := range eff.Vars {
+						if strings.HasPrefix(n, "H.") || strings.HasPrefix(n, "P.") || strings.HasPrefix(n, "E.") || strings.HasPrefix(n, "M") {
+							names = append(names, n)
+						}
+					}
+					sort.Strings(names)
+					ownPrefix := ""
+					if pt, ok := t.Underlying().(*types.Pointer); ok {
+						ownPrefix = "H." + typeName(pt.Elem()) + "."
+					}
+					for _, n := range names {
+						g.stateVar(n, eff.Vars[n](g.s))
+						if ownPrefix != "" && strings.HasPrefix(n, ownPrefix) && strings.HasPrefix(g.varSort[n], "(Array Int ") {
+							// a field of the receiver's own type: only the receiver object itself (if it has that type) changes
+							old := g.get(g.st, n)
+							nv := g.havocVar(n)
+							obj := fmt.Sprintf("(ival %s)", recv)
+							g.st.m[n] = g.define(n, g.varSort[n], fmt.Sprintf("(ite (= (itag %s) %d) (store %s %s (select %s %s)) %s)", recv, g.eng.TagOf(t), old, obj, nv, obj, old))
+							continue
+						}
+						g.havocNamed(n)
+					}
+					if len(names) > 0 {
+						g.noteAssumption("interface " + iname + " is also implemented by module type " + t.String() + ": its fields written by " + mname + " are forgotten at every call through the interface")
+					}
+				}
+			}
+		}
+		return res
 	}
 	var impls []types.Type
 	if closedWorld(itype) {
